@@ -19,6 +19,7 @@ class C04F(FutProp):
         'CylcModel.C04F.cached_offset_recomputed',
         'CylcModel.C04F.cached_offset_exact_on_add',
         'CylcModel.C04F.cached_offset_exact_on_remove',
+        'CylcModel.C04F.cached_offset_exact_counterexample',
         'CylcModel.C04F.limit_forced_spec',
         'CylcModel.C04F.limit_unforced_spec',
         'CylcModel.C04F.limit_capped_at_stop_point',
@@ -40,7 +41,7 @@ class C04F(FutProp):
         'offset of the pooled instances and the largest future offset of the pooled tasks over all their instances '
         '(cached_offset_bracket = judge clause R3; cached_offset_invariant in elementary terms; the two ends coincide unless a '
         'task has instances with different offsets - the code raises the offset of a task definition lazily, so exact '
-        'equality with the maximum over the pool members does not hold in cylc-flow either); set_max_future_offset '
+        'equality with the maximum over the pool members does not hold in cylc-flow either: cached_offset_exact_counterexample); set_max_future_offset '
         'recomputes the maximum over the whole pool and is what add / remove of a proxy with an offset run '
         '(cached_offset_recomputed, _exact_on_add, _exact_on_remove); (2) a forced compute_runahead yields the specification '
         'limit specLimit (count limit from the base point found by walking next-larger points over the plain union of the '
